@@ -244,6 +244,35 @@ theorem run_vals_conform {w : World Val} {c : Cfg} (hs : c.onSpecClass = true)
             exact absurd hv.symm (hno v)
     · exact ih (step_refines h op).2 v hv
 
+theorem pget_of_slot {w : World Val} {c : Cfg} {s : St Val} {v : Val}
+    (hg : (c.overridable || c.cache) = true) (hs : s.slot = some v) : (pget w c s).2 = .val v := by
+  simp [pget, hg, hs]
+
+/-- While the slot is filled and consulted, reads and bumps neither change it nor see anything else. -/
+theorem slot_stable (w : World Val) (c : Cfg) (v : Val) (hg : (c.overridable || c.cache) = true)
+    (more : List (Op Val)) (hm : ∀ op ∈ more, op = .read ∨ op = .bump) :
+    ∀ (s : St Val), s.slot = some v →
+      (run w c s more).1.slot = some v ∧ ∀ o ∈ (run w c s more).2, o = .val v ∨ o = .done := by
+  induction more with
+  | nil => intro s hs; exact ⟨hs, by simp [run]⟩
+  | cons op more ih =>
+    intro s hs
+    have hop := hm op (by simp)
+    have hm' : ∀ op ∈ more, op = .read ∨ op = .bump := fun o ho => hm o (by simp [ho])
+    have hstep : (step w c s op).1.slot = some v ∧ ((step w c s op).2 = .val v ∨ (step w c s op).2 = .done) := by
+      rcases hop with rfl | rfl
+      · simp [step, pget, hg, hs]
+      · simp [step, hs]
+    have := ih hm' _ hstep.1
+    simp only [run]
+    refine ⟨this.1, ?_⟩
+    intro o ho
+    simp only [List.mem_cons] at ho
+    rcases ho with rfl | ho
+    · exact hstep.2
+    · exact this.2 o ho
+
+
 /-! ## classproperty -/
 
 variable {Cls : Type} [DecidableEq Cls]
